@@ -7,20 +7,28 @@ import (
 	"strings"
 
 	"github.com/fluhus/gostuff/aio"
-	"github.com/fluhus/gostuff/iterx"
 )
 
 // ReaderHeader iterates over SAM or header entries in a reader.
 func ReaderHeader(r io.Reader) iter.Seq2[SAMOrHeader, error] {
 	return func(yield func(SAMOrHeader, error) bool) {
-		csvReader := iterx.CSVReader(r, func(r *csv.Reader) {
-			r.Comma = '\t'
-			r.FieldsPerRecord = -1 // Allow variable number of fields.
-			r.LazyQuotes = true
-		})
-		for line, err := range csvReader {
+		csvReader := csv.NewReader(r)
+		csvReader.Comma = '\t'
+		csvReader.FieldsPerRecord = -1 // Allow variable number of fields.
+		csvReader.LazyQuotes = true
+		for {
+			line, err := csvReader.Read()
+			if err == io.EOF {
+				break
+			}
 			// Error case.
 			if err != nil {
+				if _, ok := err.(*csv.ParseError); !ok {
+					// Reading failed. The line may be incomplete and the
+					// rest of the input is unavailable.
+					yield(SAMOrHeader{}, err)
+					break
+				}
 				if !yield(SAMOrHeader{}, err) {
 					break
 				}
